@@ -138,10 +138,34 @@ def _run_replay(ctx):
         events = vlib.read_ndjson(ctx.path("trace.ndjson"))
         _check_modelbad(res, events)
         _report_trace_bad(ctx, res, events)
+    elif payload["kind"] in ("replay", "trace"):
+        import core_common as cc
+        return cc.replay_core(ctx, OPTCOND)
     else:
         raise vlib.MachineryError("unknown replay payload kind %r" % payload.get("kind"))
     ctx.cover(replayed=1, states=sum(x["distinct"] for x in ctx.tlc_runs), transitions=sum(x["generated"] for x in ctx.tlc_runs),
               traces_validated_against_impl=1, samples=[payload.get("source")])
+
+
+def _optcond_scope(field, exp, got, info):
+    """This stage owns the option lists (texts, order, Disabled flags) presented by hub nodes that are
+    reached again and again while visit counts and variables change."""
+    return field == "out" and isinstance(exp, dict) and isinstance(got, dict) and "opts" in (exp.get("k"), got.get("k"))
+
+
+# Disabled must be computed from the condition's value AT EVERY PRESENTATION of the group (history):
+# decided on the runner specification, with the shared pipeline of checks/core_common.py
+OPTCOND = dict(
+    sig="optcond", scope=_optcond_scope, merge=True,
+    sc=dict(family="optcond", n=(120, 1200), mc=dict(max_calls=12, after_end=0), mc_thorough=dict(max_calls=14),
+            invariants=["FlowRefinesSem"]),
+    cs=[dict(family="optcond", n=(40, 400), paths=(3, 5), calls=40,
+             label="YarnTrace: option groups of hub nodes presented repeatedly")],
+    nontrivial=lambda c: sum(1 for b in c["bodies"] for s in b if s["k"] == "opts" for o in s["opts"] if o["cond"]["k"] != "none") >= 2,
+    rule="programs of the optcond family (hub nodes reached again through jumps; most options conditional, many conditions reading no "
+         "variable: visited / visited_count / host functions): all choice paths enumerated by TLC and replayed, random walks "
+         "trace-validated; judged: option texts, order and Disabled at every presentation; non-trivial = at least two conditional options",
+)
 
 
 def run(ctx):
@@ -252,6 +276,8 @@ def run(ctx):
         binding_selftest=selftest,
         samples=samples,
     )
+    import core_common as cc
+    cc.run_core_check(ctx, OPTCOND)
     ctx.assumptions += [
         "the .g4 grammars define 'syntactically valid'; lines the automaton classifies invalid/notline/open are not judged "
         "(syntax errors belong to C05; 'open' = text glued to a #tag, blanks at the very start of a line (indentation), "
